@@ -1,5 +1,6 @@
 import Rivaas.Spec.Chain
 import Rivaas.Model.Timeout
+import Rivaas.Model.TimeoutOpts
 /-
 C10 — the oracle, stated on observations.
 
@@ -73,5 +74,30 @@ def timeoutOK (o : TObs) : Bool :=
 def obsOf (s : St) : TObs :=
   { status := s.status, body := s.body, escaped := false, releasedEarly := s.releasedEarly,
     hPanicked := s.panicChan.isSome, recovered := s.recovered.isSome }
+
+
+/-! ### which requests the timeout middleware leaves alone (declarative reading of the options) -/
+
+/-- this option alone makes the path a skipped one -/
+def optSkips (path : List Char) : Opt → Bool
+  | .skipPaths ps => ps.contains path
+  | .skipPrefix ps => ps.any fun p => p.isPrefixOf path
+  | .skipSuffix ps => ps.any fun s => s.isSuffixOf path
+  | _ => false
+
+def isSkipOpt : Opt → Bool
+  | .skip _ => true
+  | _ => false
+
+/-- the `WithSkip` option that counts is the last one given -/
+def lastSkipFn : List Opt → Option Bool
+  | [] => none
+  | .skip r :: os => if os.any isSkipOpt then lastSkipFn os else r
+  | _ :: os => lastSkipFn os
+
+/-- a request is left alone iff some path / prefix / suffix option — wherever it stands in the option list — covers
+    its path, or the last `WithSkip` function says so -/
+def skipSpec (opts : List Opt) (path : List Char) : Bool :=
+  opts.any (optSkips path) || lastSkipFn opts == some true
 
 end Rivaas.Timeout
